@@ -730,6 +730,13 @@ func runCodecs(o *out, r *rng, thorough bool) {
 			o.count("wrapper-roundtrip", name, true)
 		}
 	}
+	{
+		var ms []*gpbft.PartialGMessage
+		for _, v := range pgm {
+			ms = append(ms, v.(*gpbft.PartialGMessage))
+		}
+		zstdInFlight(o, ms)
+	}
 	// well-formed zstd frames around truncated / empty / padded CBOR: the compressed decoder must give the verdict of
 	// the plain decoder on the same content, whatever was decoded before (the scratch buffer is pooled)
 	for _, v := range pgm {
